@@ -69,14 +69,19 @@ theorem columnLoop_F {cfg : Cfg} {ref query : Bytes} (hwf : cfg.WF ref.length) {
         (by show _ ≤ cfg.k; omega)
       have hacc := hq2 _ hgood hcost
       rw [columnLoop_eq _ _ _ _ _ _ _ _ hd']
-      rw [hlast] at hcost hacc ⊢
+      generalize stepColumn cfg (compareAscii cfg) (encodeRef cfg ref) (encodeQuery cfg query)[j] s.last s.col = col'
+        at hcost hacc ⊢
+      rw [hlast]
       rw [shrinkLast_full _ _ _ (by omega)]
       simp only [Nat.lt_irrefl, if_false, hsq, if_true]
       unfold rowUpd
       rw [hacc]
       cases hfd : s.best.found
       · simp
-      · simp [hfd]
+      · simp only [Bool.not_true, Bool.false_or, Bool.true_and]
+        split
+        · rfl
+        · exact hfd
     have hmono : s.best.found = true →
         (columnLoop cfg (compareAscii cfg) (encodeRef cfg ref) ref ref.length s
           (j+1, (encodeQuery cfg query)[j]'(by rw [encodeQuery_length]; exact hj))).best.found = true := by
@@ -103,5 +108,108 @@ theorem columnLoop_F {cfg : Cfg} {ref query : Bytes} (hwf : cfg.WF ref.length) {
           · rfl
       rw [hlf] at h1
       exact hhigh i h1 h2
+
+
+/-! ### the last-column search finds an acceptable row -/
+
+theorem lcsStep_found_mono (cfg : Cfg) (ref : Bytes) (m n : Nat) (col : List Entry) (so : Int) (i : Nat)
+    (best : Best) (h : best.found = true) : (lcsStep cfg ref m n col so i best).found = true := by
+  unfold lcsStep; split
+  · rfl
+  · exact h
+
+theorem lcsStep_found_of_acc (cfg : Cfg) (ref : Bytes) (m n : Nat) (col : List Entry) (so : Int) (i : Nat)
+    (best : Best) (h : accB cfg ref m i (col.getD i default) = true) :
+    (lcsStep cfg ref m n col so i best).found = true := by
+  cases hf : best.found
+  · unfold lcsStep colUpd
+    rw [h, hf]; simp
+  · exact lcsStep_found_mono _ _ _ _ _ _ _ _ hf
+
+theorem go_found_mono (cfg : Cfg) (ref : Bytes) (m n : Nat) (col : List Entry) (so : Int) (firstI fuel i : Nat)
+    (best : Best) (h : best.found = true) :
+    (lastColumnSearch.go cfg ref m n col so firstI fuel i best).found = true :=
+  go_ind cfg ref m n col so firstI i (fun b => b.found = true) (fun _ _ _ _ => rfl) fuel i best (Nat.le_refl _) h
+
+theorem go_found (cfg : Cfg) (ref : Bytes) (m n : Nat) (col : List Entry) (so : Int) (firstI : Nat) :
+    ∀ (fuel i : Nat) (best : Best),
+    (∃ r, firstI ≤ r ∧ r ≤ i ∧ accB cfg ref m r (col.getD r default) = true) → i < fuel →
+    (lastColumnSearch.go cfg ref m n col so firstI fuel i best).found = true
+  | 0, _, _, _, h => by omega
+  | fuel+1, i, best, ⟨r, h1, h2, h3⟩, hf => by
+    rw [go_succ]
+    rw [if_neg (by omega)]
+    by_cases hri : r = i
+    · subst hri
+      have := lcsStep_found_of_acc cfg ref m n col so r best h3
+      split
+      · exact this
+      · exact go_found_mono _ _ _ _ _ _ _ _ _ _ this
+    · have hi0 : (i == 0) = false := by
+        cases hh : i == 0
+        · rfl
+        · have : i = 0 := by simpa using hh
+          omega
+      rw [hi0]
+      simp only [Bool.false_eq_true, if_false]
+      exact go_found cfg ref m n col so firstI fuel (i-1) _ ⟨r, h1, by omega, h3⟩ (by omega)
+
+theorem initState_F (cfg : Cfg) (ref query : Bytes) :
+    InvF cfg ref query (minNOf cfg ref.length query.length) (initState cfg ref.length query.length) :=
+  ⟨fun _ j' h1 h2 _ => by omega, fun _ h => by omega⟩
+
+/-- **completeness of the search**: an end cell that the search visits (last row of a processed column when the
+    query end may be skipped; any admissible row of the last column), lies within the band and is acceptable whatever
+    start the DP remembers there, leads to a reported match -/
+theorem finalBest_found {cfg : Cfg} {ref query : Bytes} (hwf : cfg.WF ref.length)
+    (hcase : minNOf cfg ref.length query.length = 0 ∨ cfg.startInQuery = true) {i j : Nat}
+    (hpos : (i = ref.length ∧ cfg.stopInQuery = true ∧ minNOf cfg ref.length query.length < j ∧
+              j ≤ maxNOf cfg ref.length query.length) ∨
+            (j = query.length ∧ maxNOf cfg ref.length query.length = query.length ∧
+              minNOf cfg ref.length query.length < query.length ∧ (cfg.stopInRef = false → i = ref.length) ∧
+              i ≤ ref.length))
+    (hq : Qual cfg ref query i j) : (finalBest cfg ref query).found = true := by
+  rw [finalBest_eq]
+  obtain ⟨hP, _⟩ := finalState_ind cfg ref query
+    (fun j s => Inv cfg ref query j s ∧ InvU cfg ref query j s ∧ InvF cfg ref query j s)
+    ⟨initState_inv hwf, initState_U hwf hcase, initState_F cfg ref query⟩
+    (fun _ _ hj _ _ hP => ⟨columnLoop_inv hwf hj hP.1, columnLoop_U hwf hj hP.1 hP.2.1,
+      columnLoop_F hwf hj hP.1 hP.2.1 hP.2.2⟩)
+  have hmin := minNOf_le cfg ref.length query.length
+  have hmax := maxNOf_le cfg ref.length query.length
+  rcases hpos with ⟨hi, hsq, hj1, hj2⟩ | ⟨hj, hmn, hj0, hsr, hi⟩
+  · subst hi
+    obtain ⟨_, _, hF⟩ := hP (by omega)
+    have hfound := hF.rowFound hsq j hj1 hj2 hq
+    split
+    · unfold lastColumnSearch
+      exact go_found_mono _ _ _ _ _ _ _ _ _ _ hfound
+    · exact hfound
+  · subst hj
+    obtain ⟨hinv, hU, hF⟩ := hP (by omega)
+    rw [hmn] at hinv hU hF
+    rw [if_pos (by simp [hmn])]
+    unfold lastColumnSearch
+    by_cases hd : (finalState cfg ref query).done = true
+    · obtain ⟨hfound, hsc⟩ := hinv.doneBest hd
+      exact go_found_mono _ _ _ _ _ _ _ _ _ _ hfound
+    · have hd' : (finalState cfg ref query).done = false := by simpa using hd
+      have hmlen : (mkCtx cfg ref query).ref.length = ref.length := encodeRef_length cfg ref
+      have hil : i ≤ (finalState cfg ref query).lastFilled := by
+        apply Nat.le_of_not_lt; intro hlt
+        have := hF.filled hd' hj0 i hlt hi
+        have := hq.1
+        omega
+      have hcost := (hU.u hd').u i (by rw [hmlen]; exact hi) hq.1
+      have hgood := ((hinv.col hd').cells i (by rw [hmlen]; exact hi)).1 (by show _ ≤ cfg.k; have := hq.1; omega)
+      have hacc := hq.2 _ hgood hcost
+      refine go_found _ _ _ _ _ _ _ _ _ _ ⟨i, ?_, hil, hacc⟩ (Nat.lt_succ_self _)
+      cases hs : cfg.stopInRef
+      · simp only [Bool.false_eq_true, if_false]; have := hsr hs; omega
+      · simp
+
+theorem locate_ne_none_of_found {cfg : Cfg} {ref query : Bytes} (h : (finalBest cfg ref query).found = true) :
+    locate cfg ref query ≠ none := by
+  rw [locate_eq, h]; simp
 
 end Cutadapt.Align.Exact
